@@ -63,7 +63,18 @@ impl Backend {
                 // Canonicalize to match how paths are stored in FixtureDatabase
                 // This handles symlinks like /var -> /private/var on macOS
                 let path = path.to_path_buf();
-                Some(path.canonicalize().unwrap_or(path))
+                Some(path.canonicalize().unwrap_or_else(|_| {
+                    // A document that is not on disk yet (new, unsaved buffer) cannot be
+                    // canonicalized itself: resolve the directory it lives in instead, so that
+                    // it is keyed like its siblings and finds the conftest.py files above it
+                    match (path.parent(), path.file_name()) {
+                        (Some(parent), Some(name)) => parent
+                            .canonicalize()
+                            .map(|dir| dir.join(name))
+                            .unwrap_or_else(|_| path.clone()),
+                        _ => path.clone(),
+                    }
+                }))
             }
             None => {
                 warn!("Failed to convert URI to file path: {:?}", uri);
